@@ -40,7 +40,7 @@ REACH = {
         "ack_at_boundary_before_timer", "ack_at_boundary_after_timer", "nak_at_boundary",
         "error_while_pending", "error_while_idle", "queued_send_failed", "send_after_failure_raised",
         "recovery_after_rstack", "immediate_retry_on_nak", "timeout_retry", "piggyback_ack",
-        "rstack_while_pending", "three_sends_queued", "timeout_at_floor"]
+        "rstack_while_pending", "three_sends_queued", "timeout_at_floor", "old_acknum_delivered"]
     for t in ("quick", "thorough")
 }
 SHARD_TIMEOUT = {"quick": 600, "thorough": 3000}
@@ -48,7 +48,8 @@ SHARD_TIMEOUT = {"quick": 600, "thorough": 3000}
 T_MIN, T_MAX, EPS = 0.4, 3.2, 1e-6
 REASON_EXHAUSTED = 0x51
 
-NT = [("sil",), ("stale", "0"), ("stale", "T-"), ("nak", "0"), ("nak", "d"), ("nak", "T-"), ("nak", "T+")]
+NT = [("sil",), ("stale", "0"), ("stale", "T-"), ("nak", "0"), ("nak", "d"), ("nak", "T-"), ("nak", "T+"),
+      ("stale_old", "0"), ("stale_far", "d"), ("dstale", "0")]
 TERM = [("ack", "0"), ("ack", "d"), ("ack", "T-"), ("ack", "T+"), ("nakc", "0"), ("dack", "0"),
         ("dack", "T-"), ("err", "0", 0x51), ("err", "d", 0x80), ("err", "T-", 0x52), ("err", "T+", 0x51),
         ("rstack", "0", 0x0B), ("rstack", "d", 0x02)]
@@ -143,6 +144,9 @@ def run_case(case, acc: Acc | None = None):
             kind, arg = {
                 "ack": ("ack", (frm + 1) % 8),
                 "stale": ("ack", frm),
+                "stale_old": ("ack", (frm - 1) % 8),   # acknowledges nothing new: older than the outstanding frame
+                "stale_far": ("ack", (frm - 3) % 8),
+                "dstale": ("data", (frm - 2) % 8),       # a DATA frame still carrying an old ackNum
                 "nak": ("nak", frm),
                 "nakc": ("nak", (frm + 1) % 8),
                 "dack": ("data", (frm + 1) % 8),
@@ -481,6 +485,8 @@ def judge_case(acc: Acc, case):
         acc.hit("error_while_idle")
     if any(e[2] == "data" for e in rx):
         acc.hit("piggyback_ack")
+    if any(r[0] in ("stale_old", "stale_far", "dstale") for snd in case["sends"] for r in snd):
+        acc.hit("old_acknum_delivered")
     # recovery: a DATA frame with frmNum 0 written after an RSTACK that followed a failure
     seen_fail = False
     seen_rstack_after_fail = False
@@ -542,10 +548,10 @@ def gen_cases(tier, seed):
     rnd = random.Random(seed)
     cases = []
     if tier == "quick":
-        singles = single_scripts(3, 300, maxa, rnd)
+        singles = single_scripts(2, 400, maxa, rnd)
         nmulti = 5000
     else:
-        singles = single_scripts(4, 0, maxa, rnd) + [list(p) for p in itertools.product(NT, repeat=maxa)]
+        singles = single_scripts(3, 3000, maxa, rnd) + [list(p) for p in itertools.product(NT[:7], repeat=maxa)]
         nmulti = 30000
     for i, s in enumerate(singles):
         cases.append({"sends": [s], "followup": True})
